@@ -148,6 +148,11 @@ def seqm_parameters(cfg):
 def output_dict(cfg, prefix):
     o = cfg["out"]
     h5 = {k: int(v) for k, v in o["h5"].items()}
+    if cfg.get("legacy_keys"):
+        # the backward-compatible spelling: 'thermo' = screen cadence, 'dump' = XYZ and HDF5 data cadence
+        assert int(o.get("xyz", 0)) == int(h5.get("data", 0))
+        h5.pop("data", None)
+        return {"molid": list(o["molid"]), "prefix": prefix, "thermo": int(o.get("print", 0)), "dump": int(o.get("xyz", 0)), "checkpoint every": int(o.get("ckpt", 0)), "h5": h5}
     return {
         "molid": list(o["molid"]),
         "prefix": prefix,
